@@ -8,6 +8,8 @@ import GM.Proof.QuoteSimTree
 import GM.Proof.QuoteSimLeafA
 import GM.Proof.QuoteSimInv
 import GM.Proof.QuoteSimInvK
+import GM.Proof.QuoteSimInvPL
+import GM.Proof.QuoteSimList
 
 namespace GM.Blocks
 open GM GM.Text GM.Spec GM.Proof.Reader
@@ -17,15 +19,25 @@ open GM GM.Text GM.Spec GM.Proof.Reader
 /-- every opened block of A belongs to a covered parser and is not the Document -/
 def OKB (al : BP → Bool) (l : List Block) : Prop := ∀ b ∈ l, al b.bp = true ∧ b.node ≠ 0
 
+/-- when the List parser is not among the covered parsers, no node of run A's store is a List / ListItem -/
+def NK (al : BP → Bool) (nodes : List Node) : Prop :=
+  al .list = false → ∀ n ∈ nodes, n.kind ≠ .list ∧ n.kind ≠ .listItem
+
 /-- the invariant of run A's parse context that the parser lemmas need -/
 structure AInv (al : BP → Bool) (pc : Ctx) (nodes : List Node) : Prop where
   opened : OKB al pc.opened
   tmp : pc.tmpPara ≠ some 0
   fence : ∀ f, pc.fence = some f → 0 ≤ f.indent
-  /-- the store invariant of GM.Proof.QuoteSimInv: the Document has no lines, no List / ListItem node, node 0 is nobody's child -/
-  u : UStore nodes
+  /-- the store invariant of GM.Proof.QuoteSimInvL: the Document has no lines, node 0 is nobody's child -/
+  u : UStoreL nodes
+  /-- no List / ListItem node, unless the List parser is covered -/
+  nk : NK al nodes
   /-- parser/kind consistency of the open blocks (GM.Proof.QuoteSimInvK) -/
   pk : PKL pc.opened nodes
+
+/-- the store invariant of GM.Proof.QuoteSimInv, when the List parser is not covered -/
+theorem AInv.us {al : BP → Bool} {pc : Ctx} {nodes : List Node} (h : AInv al pc nodes) (hl : al .list = false) :
+    UStore nodes := ustore_of_L h.u (h.nk hl)
 
 /-- every position inside a line that has a rest of the line in front of it has one with a byte that is not a space
     (true when the source ends with `\n` or, more generally, does not end with a space: the last byte of the line is
@@ -38,6 +50,7 @@ structure PS (src : Bytes) (al : BP → Bool) : Prop where
   open_ : ∀ bp, al bp = true → OpenSim src bp
   cont : ∀ bp, al bp = true → ∀ k ls p node sA sB, SR src k ls p sA sB → node ≠ 0 → AInv al sA.pc sA.nodes → p < src.length →
     (∃ c ∈ (viewA src ls p).getD [], c ≠ 32) →
+    (bp = .listItem → isBlank ((viewA src ls p).getD []) = false → ListItemContPre src ls p node sA) →
     S2 (fun a b sA' sB' => b = a ∧ ∃ p', SR src k ls p' sA' sB')
       (bpContinue bp node sA) (bpContinue bp (node + 1) sB)
   close : ∀ bp, al bp = true → ∀ k ls p node sA sB, SR src k ls p sA sB → node ≠ 0 → AInv al sA.pc sA.nodes →
@@ -66,6 +79,12 @@ structure Frames (al : BP → Bool) : Prop where
 /-- the rest of the current line of A (from position `p` of line `ls`) is not blank -/
 def NBV (src : Bytes) (ls p : Nat) : Prop := isBlank ((viewA src ls p).getD []) = false
 
+/-- no position of the source starts a list item: behind at most three spaces there is no bullet (`-`, `*`, `+`) and no
+    number of at most nine digits with `.` or `)` that is followed by a space, a tab, the end of the line or the end of the
+    source (`parser.matchesListItem` on the rest of the line, from EVERY position) -/
+def NoItem (src : Bytes) : Prop :=
+  ∀ p, p < src.length → (matchesListItem (sub src p (lineEnd src p)) true).2 = ListTyp.notList
+
 /-- unary facts about run A ("a non-blank line always opens a block"): on a rest of line that is not blank the
     paragraph parser opens a block, and so does the code block parser when the line is indented by more than three
     columns -/
@@ -77,7 +96,7 @@ structure OT (src : Bytes) : Prop where
   /-- the two list parsers may be TRIED on sources in which no position starts a list item: their `Open` is simulated … -/
   lsim : ∀ bp, bp.notList = false → OpenSim src bp
   /-- … and declines without touching the node store (no list item at the reader's position; no List node to put an item in) -/
-  ldecl : ∀ bp, bp.notList = false → ∀ k ls p q sA sB (a : Option Nat × PState) sA', SR src k ls p sA sB →
+  ldecl : ∀ bp, bp.notList = false → NoItem src → ∀ k ls p q sA sB (a : Option Nat × PState) sA', SR src k ls p sA sB →
     UStore sA.nodes → bpOpen bp q sA = .ok (a, sA') → a.1 = none ∧ sA'.nodes = sA.nodes
 
 /-- what run A's `tryParsers` answers: the result it was given or `newBlocksOpened`; and `newBlocksOpened` when it was
@@ -278,7 +297,7 @@ theorem closeBlocks_tail {src al} {k ls p} {sA0 : St} {sA sB : St} (h3 : SR src 
   · exact { hab with opened := rfl }
   · unfold modPc at e; cases e; rfl
   · rw [hh.2]
-    exact ⟨⟨by rw [← hh.2]; exact hh.1, fun z hz => hok z (hm z hz), ha.tmp, ha.fence, ha.u, hpk0.sub hm⟩, rfl⟩
+    exact ⟨⟨by rw [← hh.2]; exact hh.1, fun z hz => hok z (hm z hz), ha.tmp, ha.fence, ha.u, ha.nk, hpk0.sub hm⟩, rfl⟩
 
 theorem closeBlocks_sim {src al} (ps : PS src al) (fr : Frames al) {k ls p} {sA sB : St} (h : DR src al k ls p sA sB)
     (frm to : Int) :
@@ -386,10 +405,11 @@ theorem tpTail2_sim {src al} {cont : Bool} {k ls p} {sA sB : St} (h : DR src al 
       (tpTail2 q node bp state lbA sA) (tpTail2 (q + 1) (node + 1) bp state lbB sB) := by
   unfold tpTail2
   refine S2.bind (S2.andL (appendChild_s2 h.s q node hn0)
-    (F := fun _ sA' => sA'.pc = sA.pc ∧ UStore sA'.nodes ∧ KGn sA.nodes sA'.nodes)
-    (fun a sA' e => ⟨appendChild_pck q node sA a sA' e, us_appendChild q node hn0 sA a sA' h.a.u e,
+    (F := fun _ sA' => sA'.pc = sA.pc ∧ UStoreL sA'.nodes ∧ NK al sA'.nodes ∧ KGn sA.nodes sA'.nodes)
+    (fun a sA' e => ⟨appendChild_pck q node sA a sA' e, usL_appendChild q node hn0 sA a sA' h.a.u e,
+      (fun hl0 n hn => ((us_appendChild q node hn0 sA a sA' (h.a.us hl0) e).node n hn).kind),
       kgn_of_keeps (fun n0 => kg_appendChild n0 q node) e⟩)) (fun _ _ sA1 sB1 hq => ?_)
-  obtain ⟨h1, hpc1, hu1, hkg1⟩ := hq
+  obtain ⟨h1, hpc1, hu1, hnk1, hkg1⟩ := hq
   refine S2.bind (S2.andL (modPc_s2 h1 _ _ (fun a b hab => ?_))
     (F := fun _ sA' => sA' = { sA1 with pc := { sA1.pc with opened := sA1.pc.opened ++ [{ node := node, bp := bp }] } })
     (fun a sA' e => ?_)) (fun _ _ sA2 sB2 hq => ?_)
@@ -400,7 +420,7 @@ theorem tpTail2_sim {src al} {cont : Bool} {k ls p} {sA sB : St} (h : DR src al 
       rw [hpc2]
       simp only
       rw [hpc1]
-      refine ⟨fun z hz => ?_, h.a.tmp, h.a.fence, hu1, (h.a.pk.kg hkg1).push (hnew.kg hkg1)⟩
+      refine ⟨fun z hz => ?_, h.a.tmp, h.a.fence, hu1, hnk1, (h.a.pk.kg hkg1).push (hnew.kg hkg1)⟩
       rcases List.mem_append.mp hz with hz | hz
       · exact h.a.opened z hz
       · simp only [List.mem_singleton] at hz; subst hz; exact ⟨hal, hn0⟩
@@ -423,20 +443,22 @@ def tpTail1 (b : Bool) (q node : Nat) (bp : BP) (state : PState) (lastBlock : Op
   | none => tpTail2 q node bp state lastBlock
 
 theorem tpTail1_sim {src al} {cont : Bool} (ps : PS src al) (fr : Frames al) {k ls p} {sA sB : St} (h : DR src al k ls p sA sB)
-    (bA bB : Bool) (q node : Nat) (hn0 : node ≠ 0) (bp : BP) (hal : al bp = true) (state : PState)
+    (bA bB : Bool) (hbf : FL src → bB = bA) (q node : Nat) (hn0 : node ≠ 0) (bp : BP) (hal : al bp = true) (state : PState)
     {lbA lbB : Option Block} (hl : LR al lbA lbB) (hnew : NRn bp node sA.nodes) :
     S2 (fun a b sA' sB' => (TryRel al cont a b ∧ a.2.1 = .newBlocksOpened ∧ b.2.1 = .newBlocksOpened) ∧ DR src al k ls p sA' sB')
       (tpTail1 bA q node bp state lbA sA) (tpTail1 bB (q + 1) (node + 1) bp state lbB sB) := by
   unfold tpTail1
   refine S2.bind (S2.andL (modNode_s2 h.s node _ _ (fun a b hab => ?_))
-    (F := fun _ sA' => sA'.pc = sA.pc ∧ UStore sA'.nodes ∧ KGn sA.nodes sA'.nodes)
+    (F := fun _ sA' => sA'.pc = sA.pc ∧ UStoreL sA'.nodes ∧ NK al sA'.nodes ∧ KGn sA.nodes sA'.nodes)
     (fun a sA' e => ⟨modNode_pck _ _ sA a sA' e,
-      us_modNode node (fun n => { n with blankPrev := bA }) (fun n hn => ⟨hn.kind, hn.kids⟩) (fun _ _ => rfl) sA a sA' h.a.u e,
+      usL_modNode node (fun n => { n with blankPrev := bA }) (fun n hn => ⟨hn.kids⟩) (fun _ _ => rfl) sA a sA' h.a.u e,
+      (fun hl0 n hn => ((us_modNode node (fun n => { n with blankPrev := bA }) (fun n hn => ⟨hn.kind, hn.kids⟩) (fun _ _ => rfl)
+        sA a sA' (h.a.us hl0) e).node n hn).kind),
       kgn_of_keeps (fun n0 => kgi_modNode n0 node (fun n => { n with blankPrev := bA }) (fun _ => rfl)) e⟩)) (fun _ _ sA1 sB1 hq => ?_)
-  · exact { hab with }
-  obtain ⟨h1, hpc1, hu1, hkg1⟩ := hq
+  · exact { hab with blank := (fun hfl _ => hbf hfl) }
+  obtain ⟨h1, hpc1, hu1, hnk1, hkg1⟩ := hq
   have hd1 : DR src al k ls p sA1 sB1 :=
-    ⟨h1, by rw [hpc1]; exact ⟨h.a.opened, h.a.tmp, h.a.fence, hu1, h.a.pk.kg hkg1⟩⟩
+    ⟨h1, by rw [hpc1]; exact ⟨h.a.opened, h.a.tmp, h.a.fence, hu1, hnk1, h.a.pk.kg hkg1⟩⟩
   have hnew1 : NRn bp node sA1.nodes := hnew.kg hkg1
   rcases hl.rel with ⟨e1, e2⟩ | ⟨x, e1, e2⟩
   · subst e1 e2
@@ -508,7 +530,7 @@ def tpReqJp (b : Bool) (q node : Nat) (bp : BP) (state : PState) (lastBlock : Op
   else tpTail1 b q node bp state lastBlock
 
 theorem tpReqJp_sim {src al} {cont : Bool} (ps : PS src al) (fr : Frames al) {k ls p} {sA sB : St} (h : DR src al k ls p sA sB)
-    (bA bB : Bool) (q node : Nat) (hn0 : node ≠ 0) (bp : BP) (hal : al bp = true) (state : PState)
+    (bA bB : Bool) (hbf : FL src → bB = bA) (q node : Nat) (hn0 : node ≠ 0) (bp : BP) (hal : al bp = true) (state : PState)
     {lbA lbB : Option Block} (hl : LR al lbA lbB) (blocks : List Block) (hb : blocks ≠ []) (hbo : OKB al blocks)
     (lb : Block) (hlb : lb.node ≠ 0) (hnew : NRn bp node sA.nodes) (hbpk : PKL blocks sA.nodes) :
     S2 (fun a b sA' sB' => (TryRel al cont a b ∧ a.2.1 = .newBlocksOpened ∧ b.2.1 = .newBlocksOpened) ∧ DR src al k ls p sA' sB')
@@ -524,7 +546,7 @@ theorem tpReqJp_sim {src al} {cont : Bool} (ps : PS src al) (fr : Frames al) {k 
     have hd2 : DR src al k ls p sA2 sB2 := by
       refine ⟨h2, ?_⟩
       rw [hpc2]
-      exact ⟨fun z hz => hbo z (List.dropLast_subset _ hz), h.a.tmp, h.a.fence, h.a.u,
+      exact ⟨fun z hz => hbo z (List.dropLast_subset _ hz), h.a.tmp, h.a.fence, h.a.u, h.a.nk,
         hbpk.sub (fun z hz => List.dropLast_subset _ hz)⟩
     have hnew2 : NRn bp node sA2.nodes := by rw [hpc2]; exact hnew
     simp only [shB]
@@ -540,10 +562,11 @@ theorem tpReqJp_sim {src al} {cont : Bool} (ps : PS src al) (fr : Frames al) {k 
     · rw [if_pos hkp, if_pos hkp]
       exact S2.errL (throw_bind_err _ _ _)
     · rw [if_neg hkp, if_neg hkp]
-      exact tpTail1_sim ps fr hd2 bA bB q node hn0 bp hal state hl hnew2
+      exact tpTail1_sim ps fr hd2 bA bB hbf q node hn0 bp hal state hl hnew2
 
-theorem tryParsers_sim {src al} (ps : PS src al) (fr : Frames al) (ot : OT src) (bA bB cont : Bool) (w : Int) (q : Nat) :
-    ∀ (bps : List BP), (∀ bp ∈ bps, al bp = true ∨ bp.notList = false) → ∀ (result resultB : OpenResult) (lbA lbB : Option Block)
+theorem tryParsers_sim {src al} (ps : PS src al) (fr : Frames al) (ot : OT src) (bA bB cont : Bool) (hbf : FL src → bB = bA)
+    (w : Int) (q : Nat) :
+    ∀ (bps : List BP), (∀ bp ∈ bps, al bp = true ∨ (bp.notList = false ∧ al .list = false ∧ NoItem src)) → ∀ (result resultB : OpenResult) (lbA lbB : Option Block)
       {k ls p : Nat} {sA sB : St}, DR src al k ls p sA sB → LRw al lbA lbB → RRes cont result resultB →
       HC cont result lbA sA →
       S2 (fun a b sA' sB' => TryRel al cont a b ∧ (resultB = result → b.2.1 = a.2.1) ∧ (∃ p', DR src al k ls p' sA' sB') ∧
@@ -602,11 +625,12 @@ theorem tryParsers_sim {src al} (ps : PS src al) (fr : Frames al) (ot : OT src) 
              fun hbp hlo => by subst hbp; obtain ⟨lo, hlo⟩ := hlo; exact ot.code k ls p q sA sB a sA' lo h.s hnb hlo e⟩),
             (fun id hid => fr.openNR _ _ _ _ _ id e hid hal), fr.openKG _ _ _ _ _ e hal, bpOpen_opened _ _ _ _ _ e,
             fun _ => hal⟩)
-      · refine S2.andL (ot.lsim bp hnl k ls p q sA sB h.s) (fun a sA' e => ?_)
-        obtain ⟨hn1, hn2⟩ := ot.ldecl bp hnl k ls p q sA sB a sA' h.s h.a.u e
+      · obtain ⟨hnl, hl0, hnoi⟩ := hnl
+        refine S2.andL (ot.lsim bp hnl k ls p q sA sB h.s) (fun a sA' e => ?_)
+        obtain ⟨hn1, hn2⟩ := ot.ldecl bp hnl hnoi k ls p q sA sB a sA' h.s (h.a.us hl0) e
         have ho := bpOpen_opened _ _ _ _ _ e
         refine ⟨⟨by rw [ho]; exact h.a.opened, bpOpen_tmp bp q sA sA' a e (fun b hb => (h.a.opened b hb).2) h.a.tmp,
-          bpOpen_fence bp q sA sA' a e h.a.fence, by rw [hn2]; exact h.a.u, by rw [ho, hn2]; exact h.a.pk⟩,
+          bpOpen_fence bp q sA sA' a e h.a.fence, by rw [hn2]; exact h.a.u, by rw [hn2]; exact h.a.nk, by rw [ho, hn2]; exact h.a.pk⟩,
           fr.req _ _ _ _ _ e, fr.nonePos _ _ _ _ _ e,
           (fun _ => ⟨(fun hbp => by subst hbp; cases hnl), (fun hbp _ => by subst hbp; cases hnl)⟩),
           (fun id hid => by rw [hn1] at hid; cases hid),
@@ -691,14 +715,14 @@ theorem tryParsers_sim {src al} (ps : PS src al) (fr : Frames al) (ot : OT src) 
             simp only [Bool.false_eq_true, if_false]
             have hne : sA4.pc.opened ≠ [] := by
               intro e; apply hlen; rw [e]; rfl
-            exact S2.mono (tpReqJp_sim ps fr ⟨h4, ha4⟩ bA bB q n hn0 bp hal stB hl' sA4.pc.opened hne ha4.opened x hx0
+            exact S2.mono (tpReqJp_sim ps fr ⟨h4, ha4⟩ bA bB hbf q n hn0 bp hal stB hl' sA4.pc.opened hne ha4.opened x hx0
                 (hnew2.kg hkg4) ha4.pk)
               (fun _ _ _ _ hh => ⟨hh.1.1, fun _ => by rw [hh.1.2.1, hh.1.2.2], ⟨p', hh.2⟩, hfin _ hh.1.2.1, HC.of_new hh.1.2.1⟩)
         · rw [if_neg hc, if_neg hc]
-          exact S2.mono (tpTail1_sim ps fr hd2 bA bB q n hn0 bp hal stB hl' hnew2)
+          exact S2.mono (tpTail1_sim ps fr hd2 bA bB hbf q n hn0 bp hal stB hl' hnew2)
             (fun _ _ _ _ hh => ⟨hh.1.1, fun _ => by rw [hh.1.2.1, hh.1.2.2], ⟨p', hh.2⟩, hfin _ hh.1.2.1, HC.of_new hh.1.2.1⟩)
       · rw [if_neg hrq, if_neg hrq]
-        exact S2.mono (tpTail1_sim ps fr hd2 bA bB q n hn0 bp hal stB hl' hnew2)
+        exact S2.mono (tpTail1_sim ps fr hd2 bA bB hbf q n hn0 bp hal stB hl' hnew2)
           (fun _ _ _ _ hh => ⟨hh.1.1, fun _ => by rw [hh.1.2.1, hh.1.2.2], ⟨p', hh.2⟩, hfin _ hh.1.2.1, HC.of_new hh.1.2.1⟩)
 
 /-! ### the relation with `BlockOffset` / `BlockIndent` left open (they are rewritten by every retry of openBlocks
